@@ -84,6 +84,16 @@ type decOutcome struct {
 // guardedDecode runs DecodeSlab and, when it succeeds, ByteSize and ChildStorables, under recover
 // with a 2 s watchdog.
 func guardedDecode(id atree.SlabID, data []byte) decOutcome {
+	o := guardedDecodeT(id, data, 2*time.Second)
+	if o.class == "TIMEOUT" {
+		// a loaded machine can starve the goroutine for seconds: only a call that does not return
+		// within a minute either is reported as a hang
+		o = guardedDecodeT(id, data, 60*time.Second)
+	}
+	return o
+}
+
+func guardedDecodeT(id atree.SlabID, data []byte, limit time.Duration) decOutcome {
 	ch := make(chan decOutcome, 1)
 	go func() {
 		var out decOutcome
@@ -110,7 +120,7 @@ func guardedDecode(id atree.SlabID, data []byte) decOutcome {
 	select {
 	case o := <-ch:
 		return o
-	case <-time.After(2 * time.Second):
+	case <-time.After(limit):
 		return decOutcome{class: "TIMEOUT"}
 	}
 }
@@ -418,7 +428,7 @@ func (e *codecEnv) emitDEC(id atree.SlabID, data []byte) decOutcome {
 		e.panics++
 		e.violation("C19", fmt.Sprintf("DecodeSlab/ByteSize/ChildStorables panicked (%s) on id=%s data=%s", o.detail, hx.IDStr(id), hex.EncodeToString(data)))
 	case "TIMEOUT":
-		e.violation("C19", fmt.Sprintf("DecodeSlab did not return within 2s on id=%s data=%s", hx.IDStr(id), hex.EncodeToString(data)))
+		e.violation("C19", fmt.Sprintf("DecodeSlab did not return within 2 s, nor within 60 s on a second call, on id=%s data=%s", hx.IDStr(id), hex.EncodeToString(data)))
 	}
 	if r := skipReason(data); r != "" {
 		e.st.Hit("skip:" + r)
